@@ -103,6 +103,12 @@ Theorem C05_jacobian_of_programs : forall (ps : list prog) (x : list R), List.Fo
     forall k pk i xi, nth_error ps k = Some pk -> nth_error x i = Some xi ->
       is_derive (fun t => eval (T:=R) (replace_at x i t) pk) xi (mget J k i).
 Proof. exact jacobian_of_programs. Qed.
+(* second_partial_derivative: value, both first partials and the MIXED second partial derivative *)
+Theorem C05_second_partial_derivative_of_program : forall p x y, okR (x :: y :: nil) p ->
+  let f := fun s t => eval (T:=R) (s :: t :: nil) p in
+  exists fx fy fxy (ft : R -> R), second_partial_derivative (fun a b => eval (a :: b :: nil) p) x y = (f x y, fx, fy, fxy) /\
+    is_derive (fun s => f s y) x fx /\ locally x (fun s => is_derive (f s) y (ft s)) /\ fy = ft x /\ is_derive ft x fxy.
+Proof. exact second_partial_derivative_of_program. Qed.
 
 (* non-vacuity: a three-element input has a third element *)
 Example C05_seed_example : exists s, nth_error (seed_gradient [1; 2; 3]) 2 = Some s /\ part_DualVec s (2%nat :: nil) = 1 /\ part_DualVec s (0%nat :: nil) = 0.
@@ -125,5 +131,6 @@ Definition C05_bundle := (C05_seed_gradient_spec,
   C05_second_derivative_of_program,
   C05_third_derivative_of_program,
   C05_gradient_of_program,
-  C05_jacobian_of_programs).
+  C05_jacobian_of_programs,
+  C05_second_partial_derivative_of_program).
 Print Assumptions C05_bundle.
